@@ -224,8 +224,7 @@ class AFMReader(TextToModel):
             result.right = self.build_ast_node(expression.expression()[1], prefix)
 
         if isinstance(expression, AFMParser.NotExpContext):
-            result = Node(ASTOperation.NOT)
-            result.right = self.build_ast_node(expression.expression(), prefix)
+            result = Node(ASTOperation.NOT, self.build_ast_node(expression.expression(), prefix))
 
         if isinstance(expression, AFMParser.ParenthesisExpContext):
             result = self.build_ast_node(expression.expression(), prefix)
